@@ -4,6 +4,7 @@ import (
 	"encoding/json"
 	"fmt"
 	"sort"
+	"strings"
 	"sync"
 	"time"
 
@@ -69,6 +70,7 @@ func (c *RecCron) Registered() []string {
 type SysConfig struct {
 	TTL            string // "never" | "1ms" | "forever"
 	CheckExistence bool
+	Cron           string // "" / "rec" (recording, persistent) | "rec-ephemeral" | "internal" (cron.InternalCron, never started)
 }
 
 func (w *World) initSystem(sc SysConfig) error {
@@ -95,8 +97,27 @@ func (w *World) initSystem(sc SysConfig) error {
 	c.Verbosity = core.NOTHING
 	c.MaxFacts = w.Cfg.MaxFacts
 	cont.DefaultLocControl = c
-	w.Cron = NewRecCron(true)
-	s, err := sys.NewSystem(ctx, conf, cont, w.Cron)
+	var cronner cron.Cronner
+	switch sc.Cron {
+	case "", "rec":
+		if w.Cron == nil { // a persistent cron service keeps its jobs across a restart of the engine
+			w.Cron = NewRecCron(true)
+		}
+		cronner = w.Cron
+	case "rec-ephemeral":
+		w.Cron = NewRecCron(false)
+		cronner = w.Cron
+	case "internal":
+		cr, err := cron.NewCron(nil, time.Second, "verif", 100000)
+		if err != nil {
+			return err
+		}
+		w.ICron = cr // not started: jobs are registered and removed, never fired
+		cronner = &cron.InternalCron{Cron: cr}
+	default:
+		return fmt.Errorf("unknown cron kind %q", sc.Cron)
+	}
+	s, err := sys.NewSystem(ctx, conf, cont, cronner)
 	if err != nil {
 		return err
 	}
@@ -189,6 +210,30 @@ func (w *World) doSys(ctx *core.Context, op Op, res *Res) {
 		for id := range rs {
 			res.Ids = append(res.Ids, id)
 		}
+	case "Restart":
+		// a new System over the same (Bolt) storage, with a new cron of the same kind
+		if err := s.Close(ctx); err != nil {
+			res.C, res.Msg = "error", err.Error()
+			return
+		}
+		if err := w.initSystem(w.Cfg.Sys); err != nil {
+			res.C, res.Msg = "error", err.Error()
+			return
+		}
+		// every location is touched once, which loads it
+		for _, l := range w.Cfg.Locs {
+			w.Sys.GetSize(quietCtx(), l)
+		}
+	case "Tick":
+		// what the cron service does when the job of rule op.Id in op.Loc is due
+		fr, err := s.ProcessEvent(ctx, op.Loc, mustJSON(map[string]interface{}{"trigger!": op.Id}))
+		w.recordTree(fr, res)
+		if fr == nil {
+			res.C = res.set(err)
+			if err == nil {
+				res.C = "error"
+			}
+		}
 	case "ProcessEvent":
 		fr, err := s.ProcessEvent(ctx, op.Loc, val)
 		w.recordTree(fr, res)
@@ -205,4 +250,28 @@ func (w *World) doSys(ctx *core.Context, op Op, res *Res) {
 	default:
 		panic(fmt.Sprintf("operation %s is not available through sys.System", op.Op))
 	}
+}
+
+// cronState: what is registered with the cron service: loc -> ids (recording cron) and the number of jobs.
+func (w *World) cronState() (map[string]interface{}, int) {
+	regs := map[string]interface{}{}
+	for _, l := range w.Cfg.Locs {
+		regs[l] = []string{}
+	}
+	if w.ICron != nil {
+		return regs, w.ICron.PendingCount()
+	}
+	if w.Cron == nil {
+		return regs, -1
+	}
+	all := w.Cron.Registered()
+	for _, k := range all {
+		i := strings.Index(k, "/")
+		l, id := k[:i], k[i+1:]
+		w.R.T.NoteString(id)
+		if cur, ok := regs[l]; ok {
+			regs[l] = append(cur.([]string), id)
+		}
+	}
+	return regs, len(all)
 }
